@@ -198,16 +198,24 @@ def run(c, a):
     res = c.run_shards(wrapper, "^TestVerifStreamObsExtra$", [dummy], os.path.join(c.scratch, "so-extra-out"), timeout=900,
                        env={"VERIF_ROUNDS": "20" if thorough else "5"})
     extra = []
+    extra_crashed = False
     for rc, out, outp in res:
         evs = [json.loads(l) for l in open(outp)] if os.path.exists(outp) else []
-        if rc != 0 and not (evs and proxy_panicked(outp + ".log")):
-            raise Broken("extra probes failed rc=%s: %s" % (rc, out[-1500:]))
+        if rc != 0:
+            # the probing process died: a verdict iff the panic came out of the proxy's own code (the observer's printer runs
+            # on a goroutine without recover in production, too)
+            if c.crash_verdict("StreamObs", rc, outp):
+                extra_crashed = True
+            elif not (evs and proxy_panicked(outp + ".log")):
+                raise Broken("extra probes failed rc=%s: %s" % (rc, out[-1500:]))
         extra += evs
-    if any(e["ev"] == "Overlap" and e["forwarder"] and e["baseline"] != 0 for e in extra):
+    if extra_crashed:
+        pass
+    elif any(e["ev"] == "Overlap" and e["forwarder"] and e["baseline"] != 0 for e in extra):
         raise Broken("overlap probe: the process-wide stream tracker was not empty before the probe")
-    if sum(1 for e in extra if e["ev"] == "Overlap") < 6:
+    if not extra_crashed and sum(1 for e in extra if e["ev"] == "Overlap") < 6:
         raise Broken("overlap probes incomplete")
-    if sum(1 for e in extra if e["ev"] == "Concurrent") < 4 or sum(1 for e in extra if e["ev"] == "ServePanic") < 4:
+    if not extra_crashed and (sum(1 for e in extra if e["ev"] == "Concurrent") < 4 or sum(1 for e in extra if e["ev"] == "ServePanic") < 4):
         raise Broken("extra probes incomplete: %d events" % len(extra))
     for e in extra:
         e["id"] += 1000000
